@@ -766,7 +766,7 @@ def _judge(ck, case, api, built, rt_error, out, stub_error, model, fmt_namespace
             ck.disagree('decl.stub.imports', case.case_dict(ns=n), sorted(rt_typing) + sorted(rt_rest),
                         sorted(mo_typing) + sorted(mo_rest))
         wf = rep['wf']
-        for key in ('chains', 'direct'):
+        for key in ('chains', 'direct', 'own'):
             if wf[key]:
                 ck.agree('decl.stub.wf-' + key)
             else:
@@ -774,8 +774,8 @@ def _judge(ck, case, api, built, rt_error, out, stub_error, model, fmt_namespace
         ck.hist('hypothesis.refsCovered', wf['refs'])
         ck.hist('hypothesis.aliasNamesStable', wf['alias_stable'])
         # what the theorems conclude, evaluated by the model on this description
-        if wf['refs'] and not rep['closed']:
-            ck.disagree('decl.stub.theorem-instance', case.case_dict(ns=n), 'refsCovered', 'not closed')
+        if wf['own'] and not rep['closed']:
+            ck.disagree('decl.stub.theorem-instance', case.case_dict(ns=n), 'ownRefsDefined', 'not closed')
         if rep['judged_stub'] != rep['judged_rt']:
             ck.disagree('decl.stub.theorem-instance', case.case_dict(ns=n), rep['judged_stub'], rep['judged_rt'])
         for t in rep['types']:
